@@ -67,6 +67,28 @@ for net, sp in NETS.items():
                       ('pressure-in-bar', 'ext_call("minimize")["args"][1] == P * 1.01325')],
              warns='not ext_call("minimize")["result"].success', cross_check=False)
 
+# the model may hold more species than the network, in another order (e.g. a whole thermdat file): amounts stay with their species
+sp_ = NETS['H2/O2/H2O']
+model_order = [sp_[2], ('N2', {'N': 2}), sp_[1], sp_[0]]          # H2O, N2 (not in the network), O2, H2
+elements_ = ['H', 'O']
+A_ = [[c.get(e, 0) for e in elements_] for n, c in sp_]
+feedA_ = ['(' + ' + '.join("network[%r] * %d" % (sp_[i][0], A_[i][j]) for i in range(3)) + ')' for j in range(2)]
+contract(EQ + '.__init__', P, label='model-superset-in-another-order',
+         args=dict(self=Fields(EQ), model=ListOf([gas(n, c) for n, c in model_order]),
+                   network=DictOf({n: Real(0., 2.) for n, c in sp_})),
+         requires=['all(v >= 0 for v in network.values())'] + ['%s > 0' % f for f in feedA_],
+         ensures=[('species-in-network-order', 'self.species == %r' % [n for n, c in sp_]),
+                  ('element-matrix', 'self.elements == %r and all(self.mol_elem[i][j] == %r[i][j] for i in range(3) for j in range(2))' % (elements_, A_)),
+                  ('feed-atom-totals', ' and '.join('self.ele_feed[%d] == %s' % (j, feedA_[j]) for j in range(2)))])
+contract(EQ + '.get_net_comp', P, label='model-superset-in-another-order',
+         args=dict(self=New(EQ, model=ListOf([gas(n, c) for n, c in model_order]), network=DictOf({n: Real(0., 2.) for n, c in sp_})),
+                   T=Real(300., 2500.), P=Real(0.01, 100.)),
+         requires=['T > 0', 'P > 0', 'all(v >= 0 for v in self.network.values())'],
+         ensures=[('species-order-kept', 'result.species == %r' % [n for n, c in sp_]),
+                  ('gibbs-energies-of-the-network-species', 'all(ext_call("minimize")["args"][0][i] == self.model[%r[i]].get_GoRT(T=T) for i in range(3))'
+                   % [n for n, c in sp_])],
+         cross_check=False)
+
 # a solver object that has been used before (any earlier T, P and cached energies): the next call uses the new conditions
 for net, sp in NETS.items():
     ns = len(sp)
